@@ -10,7 +10,7 @@ from checks.wcommon import *  # noqa
 W_STUBS = ["multiprocessing.get_context('spawn') -> synchronous context: Process.start() pickles its arguments and runs the target; Queue delivers exactly once, item j to worker assign[j] (symbolic), then one pill per worker",
            "SharedMemory -> recording stand-in shared by name; kernels (_add*, _merge*) are recorders keyed by the block they touch; logging queue is a list"]
 W_ASSUMPTIONS = ["mp.Queue delivers every item exactly once (its contract)", "merge kernels implement a commutative, associative combination (C01/C02/C03/C04/C09): then 'every worker's block merged exactly once into the returned sketch' gives the sequential result"]
-W_OUTSIDE = ["OS scheduling, real process spawn, shared-memory coherence between processes, signals / OOM kills, wall-clock hang detection"]
+W_OUTSIDE = ["OS scheduling beyond the two modelled timing parameters (delay before a worker's exit status is observable; the work queue's capacity with a filler blocked in put()), real process spawn, shared-memory coherence between processes, signals / OOM kills"]
 
 if MODE == "shim":
     from engine.shim import shims as _sh
